@@ -67,6 +67,7 @@ def judge(ctx, line, script, ops, impl, sock):
     inert = False
     own_close = 0
     prev_calls, prev_clock = 0, 0
+    prev_flags = "110"
     closes_written = 0
     step_seen = []
     for op, st in zip(ops, sts):
@@ -95,6 +96,11 @@ def judge(ctx, line, script, ops, impl, sock):
                     ctx.violate("out-of-range-status-refused", "wrote-before-refusing", inp, "nothing written", delta, size=size)
                 if (a[0] == "sclose" or connected) and res != "X:VALUEERROR":
                     ctx.violate("out-of-range-status-refused", "no-valueerror", inp, "X:VALUEERROR", res, size=size)
+                if res == "X:VALUEERROR" and flags != prev_flags:
+                    # refused = nothing happened: no frame, and the object is in the state it was in (a later, valid close()
+                    # must still find a connection to close)
+                    ctx.violate("out-of-range-status-refused", "refusal-changed-the-connection-state", inp,
+                                f"connected/sock/closed flags stay {prev_flags}", flags, size=size)
             elif a[0] == "close" and connected and not inert:
                 want = rx.srv_frame(8, s.to_bytes(2, "big") + (bytes.fromhex(a[2]) if a[2] != "-" else b""), 1, 0, b"\x00" * 4)
                 if not (delta.startswith("h") and bytes.fromhex(delta[1:]).startswith(want)) and flags[1] == "0" and sock.send_fail_after is None:
@@ -144,6 +150,7 @@ def judge(ctx, line, script, ops, impl, sock):
         inert = inert or became_inert
         connected = flags[0] == "1"
         prev_calls, prev_clock = calls, clock
+        prev_flags = flags
         step_seen.append(op)
 
 
